@@ -21,6 +21,10 @@ pub fn leaf_shape(r: &mut StdRng) -> Shape {
     }
 }
 
+/// field / variant names: unique, but not in alphabetical order of declaration (JSON objects are key-sorted)
+fn fname(r: &mut StdRng, prefix: char, i: usize) -> String {
+    format!("{}{}{}", ['q', 'a', 'z', 'm', 'c', 'x'][r.gen_range(0..6)], prefix, i)
+}
 pub fn gshape(r: &mut StdRng, d: u32) -> Shape {
     use Shape::*;
     let leaf = r.gen_range(0..100) < if d == 0 { 100 } else { 35 };
@@ -35,7 +39,7 @@ pub fn gshape(r: &mut StdRng, d: u32) -> Shape {
         3 => Tuple((0..r.gen_range(0..4)).map(|_| sub(r)).collect()),
         4 => TupleStruct((0..r.gen_range(0..4)).map(|_| sub(r)).collect()),
         5 => Map(Box::new(nonzw(r, 0)), Box::new(sub(r))),
-        6 => Struct((0..r.gen_range(0..4)).map(|i| (format!("f{i}"), sub(r))).collect()),
+        6 => Struct((0..r.gen_range(0..4)).map(|i| (fname(r, 'f', i), sub(r))).collect()),
         _ => Enum(
             (0..r.gen_range(1..5))
                 .map(|i| {
@@ -43,9 +47,9 @@ pub fn gshape(r: &mut StdRng, d: u32) -> Shape {
                         0 => Data::Unit,
                         1 => Data::Newtype(Box::new(sub(r))),
                         2 => Data::Tuple((0..r.gen_range(0..3)).map(|_| sub(r)).collect()),
-                        _ => Data::Struct((0..r.gen_range(0..3)).map(|j| (format!("g{j}"), sub(r))).collect()),
+                        _ => Data::Struct((0..r.gen_range(0..3)).map(|j| (fname(r, 'g', j), sub(r))).collect()),
                     };
-                    (format!("V{i}"), d_)
+                    (fname(r, 'V', i), d_)
                 })
                 .collect(),
         ),
